@@ -1,7 +1,7 @@
 //! This module defines the translation of a pattern match.
 
 use crate::{
-    compile::{Compile, CompileState, share},
+    compile::{Compile, CompileState, captures, compile_outside_cont, share},
     terms::clause::compile_clause,
     types::compile_ty,
 };
@@ -18,6 +18,8 @@ impl Compile for fun::syntax::terms::Case {
     /// WITH
     /// def share(fv(c), x) { < x | c > }
     /// ```
+    /// If a pattern variable occurs free in `c`, the continuation is kept outside of the clauses
+    /// (see [compile_outside_cont]).
     ///
     /// # Panics
     ///
@@ -27,6 +29,18 @@ impl Compile for fun::syntax::terms::Case {
         cont: core_lang::syntax::terms::Term<Cns>,
         state: &mut CompileState,
     ) -> core_lang::syntax::Statement {
+        // the continuation is going to be placed under the pattern variables of every clause: if
+        // it mentions a variable of such a name, it has to stay outside
+        if captures(
+            self.clauses
+                .iter()
+                .flat_map(|clause| clause.context.bindings.iter().map(|binding| &binding.var)),
+            &cont,
+        ) {
+            let ty = self.ty.clone();
+            return compile_outside_cont(self, ty, cont, state);
+        }
+
         // if there is more than one clause and the consumer is a not a leaf, we share it by
         // lifting it to the top level to avoid exponential blowup
         let cont = if self.clauses.len() <= 1
